@@ -454,4 +454,6 @@ def run(chk):
     chk.rule('C08.E', 'shared with C08: abstract execution of the statement loop (label lookup: first label of that name in the current list, index 0 included)')
     chk.rule('C08.L', 'shared with C08: label lookup / cache locality')
     chk.guard('C08.E', c08.check_step, chk)
-    chk.guard('C08.L', c08.check_labels, chk)
+    chk.rule('C08.F', 'shared with C08: hand-built jump-level models with user labels evaluated whole (label lookup per statement list, also for a function name bound again)')
+    models_ok = chk.guard('C08.F', c08.check_models, chk)
+    chk.readback(models_ok)('C08.L', c08.check_labels, chk)
